@@ -2,7 +2,9 @@ package main
 
 import (
 	"fmt"
+	"go/token"
 	"go/types"
+	"strings"
 
 	"golang.org/x/tools/go/ssa"
 )
@@ -583,4 +585,214 @@ func ruleMachineReplacedFirst(c *Checker, rule string) {
 	if n < 2 {
 		c.fail(rule, "handshake entry points|DoHandshake calls", 0, fmt.Sprintf("expected 2 DoHandshake calls, found %d", n))
 	}
+}
+
+// ruleNILWIRE (C07): the relay hands the endpoint protobuf messages (package hashmailrpc). Every
+// sub-message is a pointer that a (malicious or merely terse) relay may leave out: a decoded
+// CipherBox without `desc` is valid on the wire. Selecting a field through such a pointer
+// (box.Desc.StreamId) instead of the generated nil-safe getters (box.GetDesc().GetStreamId())
+// is a nil dereference in the goroutine gbn uses as its receive callback. Every field selection
+// through a pointer that was loaded from a field of a hashmailrpc message needs a dominating
+// nil test of that pointer.
+func ruleNILWIRE(c *Checker) {
+	w := c.w
+	isRPCStruct := func(t types.Type) bool {
+		n := namedOf(deref(t))
+		return n != nil && n.Obj().Pkg() != nil && n.Obj().Pkg().Name() == "hashmailrpc"
+	}
+	nSel, nDeep := 0, 0
+	for _, fn := range w.Funcs {
+		if w.pkgShort(fn) != targetMbox {
+			continue
+		}
+		allInstrs(fn, func(in ssa.Instruction) {
+			fa, ok := in.(*ssa.FieldAddr)
+			if !ok || !isRPCStruct(fa.X.Type()) {
+				return
+			}
+			nSel++
+			ld, ok := unwrapLoadAlloc(fa.X).(*ssa.UnOp)
+			if !ok || ld.Op != token.MUL {
+				return
+			}
+			inner, ok := ld.X.(*ssa.FieldAddr)
+			if !ok || !isRPCStruct(inner.X.Type()) {
+				return
+			}
+			nDeep++
+			checked := hasFact(fa.Block(), func(f Fact) bool {
+				return factRel(f, func(v ssa.Value) bool { return v == ssa.Value(ld) || w.canon(v) == w.canon(ld) }, isNilConst) == "!="
+			})
+			c.decide(checked, "NILWIRE", fmt.Sprintf("%s|%s selected through a checked pointer", fnName(fn), w.canonFB(fa)), instrPos(fa),
+				"the sub-message pointer is tested against nil first",
+				"a field is selected through the sub-message pointer "+w.canonFB(ld)+" of a relay message without a nil test: a message that omits the sub-message (valid on the wire) crashes the endpoint - use the generated getters")
+		})
+	}
+	c.decide(nSel >= 4, "NILWIRE", "mailbox|field selections on relay messages examined", token.NoPos,
+		fmt.Sprintf("%d field selections on hashmailrpc messages, %d of them through a sub-message pointer", nSel, nDeep),
+		fmt.Sprintf("only %d field selections on hashmailrpc messages found", nSel))
+}
+
+// ruleFreshSYN (GBNHS-1, C10): the window the server echoes and adopts is the N of the SYN it
+// received *last*. serverHandshake deserialises packets at two places (waiting for SYN, waiting
+// for SYNACK) and jumps back to the echo code from both; the packet whose N is read there must be
+// the result of the most recent Deserialize on every way in. A remembered earlier packet makes
+// the server answer a second SYN (another client, another N) with the first one's window.
+func ruleFreshSYN(c *Checker, sh *ssa.Function) {
+	w := c.w
+	isDeser := func(in ssa.Instruction) bool {
+		call, ok := in.(*ssa.Call)
+		if !ok {
+			return false
+		}
+		sc := call.Common().StaticCallee()
+		return sc != nil && sc.Name() == "Deserialize" && sc.Signature.Recv() == nil
+	}
+	var desers []ssa.Instruction
+	allInstrs(sh, func(in ssa.Instruction) {
+		if isDeser(in) {
+			desers = append(desers, in)
+		}
+	})
+	type arrival struct {
+		v   ssa.Value
+		end ssa.Instruction // last instruction of the block the value arrives from
+	}
+	n := 0
+	allInstrs(sh, func(in ssa.Instruction) {
+		ta, ok := in.(*ssa.TypeAssert)
+		if !ok || ta.CommaOk || !isNamedType(deref(ta.AssertedType), "PacketSYN") {
+			return
+		}
+		n++
+		var arr []arrival
+		seen := map[*ssa.Phi]bool{}
+		var expand func(v ssa.Value, at ssa.Instruction)
+		expand = func(v ssa.Value, at ssa.Instruction) {
+			if phi, ok := v.(*ssa.Phi); ok {
+				if seen[phi] {
+					return
+				}
+				seen[phi] = true
+				for i, e := range phi.Edges {
+					p := phi.Block().Preds[i]
+					expand(e, p.Instrs[len(p.Instrs)-1])
+				}
+				return
+			}
+			arr = append(arr, arrival{v, at})
+		}
+		expand(ta.X, in)
+		bad := ""
+		for _, a := range arr {
+			ex, ok := a.v.(*ssa.Extract)
+			var d ssa.Instruction
+			if ok {
+				if call, ok := ex.Tuple.(*ssa.Call); ok && isDeser(call) {
+					d = call
+				}
+			}
+			if d == nil {
+				if k, ok := a.v.(*ssa.Const); ok && k.Value == nil {
+					continue // the zero value of the variable before the first receive (infeasible at the assert)
+				}
+				bad = "the packet " + w.canonFB(a.v) + " is not the result of a Deserialize call"
+				continue
+			}
+			for _, d2 := range desers {
+				if d2 == d {
+					continue
+				}
+				if pathExists(d, d2, nil) && pathExists(d2, a.end, func(x ssa.Instruction) bool { return x == d }) {
+					bad = "the packet deserialised at " + w.pos(instrPos(d)) + " is still used although another packet was deserialised at " + w.pos(instrPos(d2)) + " on the way"
+				}
+			}
+		}
+		c.decide(bad == "", "GBNHS-1", "serverHandshake|N is read from the SYN received last", instrPos(ta),
+			"on every way in, the asserted packet is the result of the most recent Deserialize",
+			"serverHandshake reads N from a stale packet ("+bad+"): a second SYN with a different window is answered with, and the handshake completed on, the window of the first")
+	})
+	if n == 0 {
+		c.fail("GBNHS-1", "serverHandshake|N is read from the SYN received last", sh.Pos(), "no assertion to *PacketSYN found")
+	}
+}
+
+// ruleMnemonicTotal (CODEC-SIB, C17): entropy -> phrase is total over the 11-bit groups. Every
+// group value 0..2047 has a word; the only way the encoder may fail is the bit reader failing.
+// A range test on the word index that refuses a representable group (an off-by-one against the
+// end of the list) leaves entropies the server cannot display as a phrase, and NewPassphraseEntropy
+// failing for them. Accepted: an error return carrying ReadBits' own error, or one taken under
+// index >= len(DefaultWordList) (dead for 11 bits, harmless).
+func ruleMnemonicTotal(c *Checker, fn *ssa.Function) {
+	w := c.w
+	var readErr []ssa.Value
+	var index []ssa.Value
+	allInstrs(fn, func(in ssa.Instruction) {
+		ex, ok := in.(*ssa.Extract)
+		if !ok {
+			return
+		}
+		if call, ok := ex.Tuple.(*ssa.Call); ok && calleeNameIs(call, "ReadBits") {
+			if ex.Index == 1 {
+				readErr = append(readErr, carriers(ex)...)
+			} else {
+				index = append(index, carriers(ex)...)
+			}
+		}
+	})
+	isIdx := func(v ssa.Value) bool {
+		if cv, ok := v.(*ssa.Convert); ok {
+			v = cv.X
+		}
+		for _, i := range index {
+			if v == i {
+				return true
+			}
+		}
+		return false
+	}
+	isListLen := func(v ssa.Value) bool {
+		if cv, ok := v.(*ssa.Convert); ok {
+			v = cv.X
+		}
+		if k, ok := intConst(v); ok {
+			return k == 2048
+		}
+		call, ok := v.(*ssa.Call)
+		if !ok {
+			return false
+		}
+		b, ok := call.Call.Value.(*ssa.Builtin)
+		return ok && b.Name() == "len" && strings.Contains(w.canon(call.Call.Args[0]), "DefaultWordList")
+	}
+	bad := ""
+	n := 0
+	allInstrs(fn, func(in ssa.Instruction) {
+		ret, ok := in.(*ssa.Return)
+		if !ok || len(ret.Results) < 2 || ret.Block().Comment == "recover" {
+			return
+		}
+		n++
+		for _, e := range expandValues(ret.Results[1]) {
+			if isNilConst(e) {
+				continue
+			}
+			fromReader := false
+			for _, r := range readErr {
+				if e == r {
+					fromReader = true
+				}
+			}
+			if fromReader {
+				continue
+			}
+			if hasFact(ret.Block(), func(f Fact) bool { return factRel(f, isIdx, isListLen) == ">=" }) {
+				continue
+			}
+			bad = "error return at " + w.pos(instrPos(ret)) + " (" + w.canonFB(e) + ")"
+		}
+	})
+	c.decide(bad == "" && n > 0 && len(readErr) > 0, "CODEC-SIB", "EntropyToMnemonic|total over the 11-bit groups", fn.Pos(),
+		"the only failure is the bit reader's own error",
+		"PassphraseEntropyToMnemonic can refuse a representable bit group: "+bad+" - some entropies have no phrase, so entropy and mnemonic are not inverses for them")
 }
